@@ -111,6 +111,26 @@ fn main() {
     fb!(Gray8, RawU8, LittleEndianMsb0, Gray8::WHITE, 10);
     fb!(Rgb565, RawU16, BigEndianLsb0, Rgb565::WHITE, 0);
     fb!(Rgb888, RawU24, LittleEndianMsb0, Rgb888::WHITE, 3);
+    // portrait shapes
+    macro_rules! fbp {
+        ($c:ty, $raw:ty, $o:ty, $col:expr) => {{
+            const N: usize = ((3 * <$raw>::BITS_PER_PIXEL + 7) / 8) * 11;
+            let mut fb = Framebuffer::<$c, $raw, $o, 3, 11, N>::new();
+            for y in -1..13 {
+                for x in -1..5 {
+                    let p = Point::new(x, y);
+                    fb.set_pixel(p, $col);
+                    let inside = x >= 0 && y >= 0 && x < 3 && y < 11;
+                    assert_eq!(fb.pixel(p).is_some(), inside);
+                    assert_eq!(fb.as_image().pixel(p).is_some(), inside);
+                    ops += 3;
+                }
+            }
+        }};
+    }
+    fbp!(BinaryColor, RawU1, BigEndianLsb0, BinaryColor::On);
+    fbp!(Gray4, RawU4, LittleEndianMsb0, Gray4::WHITE);
+    fbp!(Rgb565, RawU16, LittleEndianMsb0, Rgb565::WHITE);
     // --- raw images and sub-images
     let data = [0b1010_0110u8, 0b0101_1000, 0xFF, 0x00, 0x81, 0x7E, 0x18, 0x24];
     let raw = ImageRaw::<BinaryColor>::new(&data, Size::new(11, 4)).unwrap();
